@@ -1,10 +1,10 @@
 UNIT = dict(
     id="c08_external_recurse",
-    prelude=["floats.rs"],
-    canary_use="broadcast use fl; ax_obeys();",
+    prelude=["floats.rs", "ideal.rs"],
+    canary_use="broadcast use fl; broadcast use ideal; ax_obeys(); ax_rv_lits();",
     expect=[("src/solve/external.rs", r"trait ActiveInfo \{\s*fn recurse\(&mut self, player: &Player, rec: impl Fn\(&Node\) -> f64\) -> f64;")],
     assumptions=[
-        "uninterpreted floats (operand order as written)",
+        "idealised-real float mode (harmless reorderings of operands do not disturb the proof)",
         "struct invariant actions.len() == strat.len() == cum_regret.len() (wf_game + RegretInfoset::new), assumed at entry",
         "the continuation `rec` may be called on any child (its precondition is assumed to hold for every node); its results u_a are whatever it returns (existentially quantified)",
     ],
@@ -16,8 +16,8 @@ pub trait ActiveInfo {
     fn recurse<F: Fn(&Node) -> f64>(&mut self, player: &Player, rec: F) -> f64;
 }
 // expected utility under the current strategy, accumulated left to right: e_{k+1} = e_k + sigma_k * u_k
-pub open spec fn ext_expected(strat: Seq<f64>, us: Seq<f64>, k: int) -> f64 decreases k {
-    if k <= 0 { 0.0f64 } else { fadd(ext_expected(strat, us, k - 1), fmul(strat[k - 1], us[k - 1])) }
+pub open spec fn ext_expected(strat: Seq<f64>, us: Seq<f64>, k: int) -> real decreases k {
+    if k <= 0 { 0real } else { ext_expected(strat, us, k - 1) + rv(strat[k - 1]) * rv(us[k - 1]) }
 }"""),
         dict(file="src/lib.rs", path="enum Node"),
         dict(file="src/lib.rs", path="struct Chance", pub_fields=True),
@@ -35,12 +35,12 @@ pub open spec fn ext_expected(strat: Seq<f64>, us: Seq<f64>, k: int) -> f64 decr
     // cumulative regret grows by u_a minus that expectation (no reach weighting in external sampling)
     exists|us: Seq<f64>| us.len() == player.actions@.len()
         && (forall|a: int| 0 <= a < us.len() ==> rec.ensures((&#[trigger] player.actions@[a],), us[a]))
-        && out == ext_expected(old(self).reg.strat@, us, us.len() as int)
-        && (forall|a: int| 0 <= a < us.len() ==> #[trigger] final(self).reg.cum_regret@[a]
-                == fsub(fadd(old(self).reg.cum_regret@[a], us[a]), out)), // @ob C08.V.external.recurse""",
-                 entry="""broadcast use fl;
+        && rv(out) == ext_expected(old(self).reg.strat@, us, us.len() as int)
+        && (forall|a: int| 0 <= a < us.len() ==> rv(#[trigger] final(self).reg.cum_regret@[a])
+                == rv(old(self).reg.cum_regret@[a]) + rv(us[a]) - rv(out)), // @ob C08.V.external.recurse""",
+                 entry="""broadcast use fl; broadcast use ideal;
 proof {
-    ax_obeys();
+    ax_obeys(); ax_rv_lits();
     assume(player.actions@.len() == self.reg.strat@.len() && self.reg.strat@.len() == self.reg.cum_regret@.len());
     assume(forall|n: &Node| rec.requires((n,)));
 }
@@ -61,12 +61,13 @@ let ghost mut us: Seq<f64> = Seq::empty();""",
         && *((it.snapshot@.remaining()[i]).0).1 == st[i] && *(it.snapshot@.remaining()[i]).1 == c0[i],
     forall|i: int| 0 <= i < n ==> rec.requires((((#[trigger] it.snapshot@.remaining()[i]).0).0,)),
     forall|i: int| 0 <= i < it.index@ ==> rec.ensures((&#[trigger] acts[i],), us[i]),
-    forall|i: int| 0 <= i < it.index@ ==> *final((#[trigger] it.snapshot@.remaining()[i]).1) == fadd(c0[i], us[i]),
-    expected == ext_expected(st, us, it.index@),
+    forall|i: int| 0 <= i < it.index@ ==> rv(*final((#[trigger] it.snapshot@.remaining()[i]).1)) == rv(c0[i]) + rv(us[i]),
+    rv(expected) == ext_expected(st, us, it.index@),
 ensures
-    forall|i: int| 0 <= i < n ==> *final(#[trigger] zip_iter_snd(it.snapshot@).remaining()[i]) == fadd(c0[i], us[i]),""",
-                             body_start="broadcast use fl;\nproof { ax_obeys(); }\nlet ghost us0 = us;",
+    forall|i: int| 0 <= i < n ==> rv(*final(#[trigger] zip_iter_snd(it.snapshot@).remaining()[i])) == rv(c0[i]) + rv(us[i]),""",
+                             body_start="broadcast use fl; broadcast use ideal;\nproof { ax_obeys(); ax_rv_lits(); }\nlet ghost us0 = us;",
                              body_end="""proof {
+    assert(rv(util) * rv(*prob) == rv(*prob) * rv(util)) by(nonlinear_arith);
     us = us0.push(util);
     assert(forall|i: int| 0 <= i < us0.len() ==> us[i] == us0[i]);
     assert(ext_expected(st, us, us0.len() as int) == ext_expected(st, us0, us0.len() as int)) by {
@@ -79,16 +80,16 @@ ensures
     it2.snapshot@.remaining().len() == n,
     0 <= it2.index@ <= n,
     forall|i: int| 0 <= i < n ==> *(#[trigger] it2.snapshot@.remaining()[i]) == mid[i],
-    forall|i: int| 0 <= i < it2.index@ ==> *final(#[trigger] it2.snapshot@.remaining()[i]) == fsub(mid[i], expected),
+    forall|i: int| 0 <= i < it2.index@ ==> rv(*final(#[trigger] it2.snapshot@.remaining()[i])) == rv(mid[i]) - rv(expected),
 ensures
-    forall|i: int| 0 <= i < n ==> *final(#[trigger] it2.snapshot@.remaining()[i]) == fsub(mid[i], expected),""",
-                             body_start="broadcast use fl;\nproof { ax_obeys(); }",
+    forall|i: int| 0 <= i < n ==> rv(*final(#[trigger] it2.snapshot@.remaining()[i])) == rv(mid[i]) - rv(expected),""",
+                             body_start="broadcast use fl; broadcast use ideal;\nproof { ax_obeys(); ax_rv_lits(); }",
                              after="""proof {
     let w = us;
     assert(w.len() == player.actions@.len() && acts == player.actions@);
     assert(forall|a: int| 0 <= a < w.len() ==> rec.ensures((&#[trigger] player.actions@[a],), w[a]));
-    assert(expected == ext_expected(st, w, w.len() as int));
-    assert(forall|a: int| 0 <= a < w.len() ==> #[trigger] self.reg.cum_regret@[a] == fsub(fadd(c0[a], w[a]), expected));
+    assert(rv(expected) == ext_expected(st, w, w.len() as int));
+    assert(forall|a: int| 0 <= a < w.len() ==> rv(#[trigger] self.reg.cum_regret@[a]) == rv(c0[a]) + rv(w[a]) - rv(expected));
 }"""),
                  }),
         ]),
